@@ -29,7 +29,7 @@ def prop_module(name: str):
     return importlib.import_module(f'vsched.props.{name.lower()}')
 
 
-DEFAULT_CFG = dict(max_points=600, horizon=25.0, window=2.0, max_targets=6, busy=True, spin_collapse=2, bound=2, cap=20000,
+DEFAULT_CFG = dict(busy_timers=0, max_points=600, horizon=25.0, window=2.0, max_targets=6, busy=True, spin_collapse=2, bound=2, cap=20000,
                    free=(), max_iters=60000)
 
 
@@ -48,7 +48,7 @@ def run_one(spec, prefix=(), expect=None, keep_world=False):
     seams.reset_globals()
     ch = Chooser(prefix, expect, cfg['max_points'])
     loop = VLoop(ch, horizon=cfg['horizon'], window=cfg['window'], max_targets=cfg['max_targets'], busy=cfg['busy'],
-                 max_iters=cfg['max_iters'], spin_collapse=cfg['spin_collapse'])
+                 max_iters=cfg['max_iters'], spin_collapse=cfg['spin_collapse'], busy_timers=cfg['busy_timers'])
     ctx = contextvars.Context()
     out: dict = {}
 
